@@ -58,6 +58,10 @@ def plan(tier):
                 U("H.require", "contracts.factorygen", "h_require_bookkeeping", (), native_ok=True, sample_models=True)]
     for n in (0, 1, 2):
         pl.units.append(U("T.rendering.n%d" % n, "contracts.factorygen", "h_set_rendering", (n, False), native_ok=True, sample_models=True))
+    from contracts import factorygen as fg
+    for side, kinds in (("condition", fg.GEN_CONDITIONS), ("action", fg.GEN_ACTIONS)):
+        for k in kinds:
+            pl.units.append(U("G.%s.%s" % (side, k), "contracts.factorygen", "h_generated_script", (side, k), native_ok=True, sample_models=True))
     pl.static = [static_requires]
     pl.bounded = [bounded_sets]
     pl.functions = [("sievelib.factory", "FiltersSet.__quote_if_necessary"), ("sievelib.factory", "FiltersSet.require"),
@@ -65,14 +69,18 @@ def plan(tier):
                     ("sievelib.factory", "FiltersSet.__gen_require_command"), ("sievelib.factory", "FiltersSet.tosieve")]
     pl.trusted = [common.TRUSTED_STRIP, common.TRUSTED_RE, "frozen RFC table: which action/tag needs which capability",
                   "strict reference validator bounded/sieve_ref.py (bounded part)"]
-    pl.unverified = ["condition/action construction for all values of every kind: bounded (kind x value pool); the deductive part "
-                     "covers the quoting helper, the require bookkeeping and the rendering order"]
+    pl.unverified = ["values containing a quote, backslash or comma, and combinations of forms beyond the 40 listed ones: bounded (kind x "
+                     "value pool, multi-condition / multi-filter scenarios); quote / backslash values fail there (listed finding)"]
     pl.explanation = (
         "Deductive: __quote_if_necessary(v) yields exactly one string token containing v for every v without quote/backslash "
         "(regex membership + equality) and is REFUTED for values containing them (known finding: no escaping); require() "
         "adds the name once and never drops one, `requires` has no other writer; tosieve writes the require line first, then "
         "each filter in order. By evaluation: for every action kind and every tag of the frozen table that needs a "
-        "capability, addfilter leaves it in `requires` (REFUTED for :flags and :seconds: known finding). Bounded: every "
+        "capability, addfilter leaves it in `requires`. G -- for 17 condition forms and 23 action forms the REAL addfilter / "
+        "__create_filter / tosieve run on SYMBOLIC values (any text without quote, backslash, comma) and the text written equals "
+        "the RFC form of that filter: a require line naming exactly the capabilities the form needs, the marker comment, "
+        "`if <matchtype> (<tests>) { <actions> }` with every value as one quoted string -- so the script is valid and "
+        "self-sufficient for every such value, not only for the pool. Bounded: every "
         "condition kind and action kind x a hostile value pool -- own output accepted by the parser, strictly valid for the "
         "reference validator (required arguments, quoting, require covers every extension), token structure identical to "
         "the benign rendering.")
